@@ -444,12 +444,10 @@ LEVEL_NOTE = ("Trusted: Lean kernel + propext/Classical.choice/Quot.sound; the h
               "(e.g. partition_point is linear here) are outside the property and not checked.")
 # members modelled and compared on every run but without a Lean theorem yet
 CORRESPONDENCE_ONLY = [
-    "adjacent_find", "is_sorted", "is_sorted_until", "min_element", "max_element", "minmax_element", "binary_search",
-    "search", "find_end", "search_n", "is_permutation", "includes", "copy", "move", "copy_backward", "move_backward",
-    "unique_copy", "transform (binary)", "unique", "shift_left", "shift_right", "partition",
+    "min_element", "max_element", "minmax_element",
+    "is_permutation", "includes",
     "sort", "gnome_sort", "bubble_sort", "exchange_sort", "nth_element", "partial_sort", "stable_sort", "insertion_sort",
-    "merge_sort", "inplace_merge", "set_difference", "set_intersection", "set_symmetric_difference", "set_union",
-    "partial_sum"]
+    "merge_sort", "inplace_merge", "set_difference", "set_intersection", "set_symmetric_difference", "set_union"]
 # algorithms whose model is proved equal to the spec for all inputs (TetlProofs/C06/Props.lean)
 WITH_THEOREM = [
     "find", "find_if", "find_if_not", "all_of", "any_of", "none_of", "count", "count_if", "for_each", "for_each_n",
@@ -458,5 +456,8 @@ WITH_THEOREM = [
     "equal_range", "mismatch (3/4 iterators)", "equal (3 iterators, 4 iterators both branches)", "lexicographical_compare",
     "accumulate", "reduce", "transform_reduce (unary)", "min", "max", "minmax", "clamp", "remove", "remove_if", "fill", "fill_n",
     "generate", "generate_n", "iota", "replace", "replace_if", "swap_ranges",
-    "merge", "stable_partition", "inner_product", "transform_reduce (binary)", "adjacent_difference"]
+    "merge", "stable_partition", "inner_product", "transform_reduce (binary)", "adjacent_difference",
+    "copy", "move", "copy_backward", "move_backward", "shift_left (both branches)", "shift_right", "unique_copy", "unique",
+    "adjacent_find", "is_sorted_until", "is_sorted", "partition", "transform (binary)", "binary_search", "partial_sum",
+    "search", "find_end", "search_n"]
 UNPROVED_OBSERVED = ["complexity requirements of the standard (not part of the property; partition_point is linear here)"]
